@@ -13,7 +13,9 @@
                                         step size is positive; fuel makes the model total, OutOfFuel is explicit)
      finalize / report       287-298 -> [finalize], [report]
    interactive.py anchors:
-     take_steps 136-163, run_until 105-134 (iterations = ceil((end - time) / step_size)), run 71-84 -> [take_steps], [run_until]
+     take_steps 145-172 -> [take_steps]; run_until 104-143 (`while clock.time < end_time: self.step()`, as of commit
+     98b7435f; before it: take_steps(ceil((end - time)/step_size)) computed once), run_for 85-102, run 70-83 -> [run_until],
+     [run_for], [interactive_run]
    time.py anchors:
      step_backward 160-162 (`_clock_time -= step_size`), step_forward 164-183 (`_clock_time += step_size`, then - only with
      per-simulant clocks - a new global step size): the new step size is the parameter [nxt : new clock -> old step -> new
@@ -107,17 +109,28 @@ Definition run_only (fuel : nat) (nxt : stepfn) (s : sim) : result sim :=
 (* ---- InteractiveContext ---- *)
 Fixpoint take_steps (n : nat) (nxt : stepfn) (s : sim) : sim :=
   match n with O => s | S k => take_steps k nxt (step nxt s) end.
-(* ceil(a / b) for b > 0 *)
+(* ceil(a / b) for b > 0 (pure arithmetic; what the number of steps amounts to for a fixed step) *)
 Definition cdiv (a b : Z) : Z := - ((- a) / b).
-(* run_until(end): iterations = int(ceil((end - time) / step_size)); range(n) is empty for n <= 0.  Rejected where the real
-   method raises: its final assertion `time - step < end <= time` fails when end lies before the clock by a step or more *)
-Definition run_until (nxt : stepfn) (e : Z) (s : sim) : result sim :=
-  let s' := take_steps (Z.to_nat (cdiv (e - clock s) (stepsz s))) nxt s in
-  if (clock s' - stepsz s' <? e) && (e <=? clock s') then Ok s' else Rejected EOther.
-Definition interactive_run (nxt : stepfn) (s : sim) : result sim := run_until nxt (stop s) s.
-Definition interactive_simulation (nxt : stepfn) (s : sim) : result sim :=
-  finish (interactive_run nxt (initialize nxt (do_setup s))).
-Definition interactive_only (nxt : stepfn) (s : sim) : result sim := interactive_run nxt (initialize nxt (do_setup s)).
+(* run_until(end): step while the clock is before the end time - the same loop as SimulationContext.run with the end time
+   in place of the stop time; no step at all when end <= clock *)
+Fixpoint run_until (fuel : nat) (nxt : stepfn) (e : Z) (s : sim) : result sim :=
+  if clock s <? e then
+    match fuel with O => OutOfFuel | S f => run_until f nxt e (step nxt s) end
+  else Ok s.
+Definition run_for (fuel : nat) (nxt : stepfn) (d : Z) (s : sim) : result sim := run_until fuel nxt (clock s + d) s.
+Definition interactive_run (fuel : nat) (nxt : stepfn) (s : sim) : result sim := run_until fuel nxt (stop s) s.
+Definition interactive_simulation (fuel : nat) (nxt : stepfn) (s : sim) : result sim :=
+  finish (interactive_run fuel nxt (initialize nxt (do_setup s))).
+Definition interactive_only (fuel : nat) (nxt : stepfn) (s : sim) : result sim :=
+  interactive_run fuel nxt (initialize nxt (do_setup s)).
+(* a session: setup, then run_until to each of the given end times in turn *)
+Fixpoint run_untils (fuel : nat) (nxt : stepfn) (es : list Z) (s : sim) : result sim :=
+  match es with
+  | [] => Ok s
+  | e :: r => match run_until fuel nxt e s with Ok s' => run_untils fuel nxt r s' | x => x end
+  end.
+Definition interactive_session (fuel : nat) (nxt : stepfn) (es : list Z) (s : sim) : result sim :=
+  run_untils fuel nxt es (initialize nxt (do_setup s)).
 
 (* the number of steps the property promises *)
 Definition steps_needed (start stop_ st : Z) : Z := if start <? stop_ then (stop_ - start + st - 1) / st else 0.
@@ -128,13 +141,17 @@ Definition mk_sim (start stop_ st : Z) (cs : list comp) : sim :=
 
 (* ---- correspondence 2: real contexts ----
    case = (start, stop, step, driver (0 SimulationContext: setup, initialize_simulants, run, finalize, report;
-           1 InteractiveContext: setup, run, finalize, report; 2 / 3: the same two without finalize and report), components,
+           1 InteractiveContext: setup, run, finalize, report; 2 / 3: the same two without finalize and report;
+           4 InteractiveContext: setup, then run_until / run_for to each of the end times [ends] in turn),
+           ends, step-size table (new clock -> global step size from there on, read off the implementation; empty for the
+           fixed-step clocks of the property: [table_nxt []] is [fixed]), components,
            observed: probe log (channel, listener, clock, event.time, event.step_size, life-cycle state at the call),
            initializer log (initializer, creation_time, creation_window,
            clock), final clock, number of step() calls, outcome (0 = returned normally, 1 = InvalidTransitionError, 2 = another error)) *)
 Definition ocall := (cid * lid * Z * Z * Z * Z)%type.
 Definition oinit := icall.
-Definition sim_case := (Z * Z * Z * Z * list comp * (list ocall * list oinit * Z * Z * Z))%type.
+Definition sim_case := (Z * Z * Z * Z * list Z * list (Z * Z) * list comp * (list ocall * list oinit * Z * Z * Z))%type.
+Definition table_nxt (tbl : list (Z * Z)) : stepfn := fun t st => match zassoc t tbl with Some st' => st' | None => st end.
 
 Definition call_eqb (a b : call) : bool :=
   let '(c1, l1, t1, e1, s1) := a in let '(c2, l2, t2, e2, s2) := b in
@@ -160,18 +177,19 @@ Definition sort_icalls (l : list icall) : list icall := fold_right insert_icall 
 Definition icall_eqb (a b : icall) : bool :=
   let '(l1, a1, b1, c1) := a in let '(l2, a2, b2, c2) := b in (l1 =? l2) && (a1 =? a2) && (b1 =? b2) && (c1 =? c2).
 
-Definition model_run (driver : Z) (fuel : nat) (s : sim) : result sim :=
-  if driver =? 0 then run_simulation fuel fixed s
-  else if driver =? 1 then interactive_simulation fixed s
-  else if driver =? 2 then run_only fuel fixed s
-  else interactive_only fixed s.
+Definition model_run (driver : Z) (fuel : nat) (nxt : stepfn) (ends : list Z) (s : sim) : result sim :=
+  if driver =? 0 then run_simulation fuel nxt s
+  else if driver =? 1 then interactive_simulation fuel nxt s
+  else if driver =? 2 then run_only fuel nxt s
+  else if driver =? 3 then interactive_only fuel nxt s
+  else interactive_session fuel nxt ends s.
 
 (* the observed calls are tagged positionally with the model's bucket sequence (see Events.same_up_to_buckets) *)
 Definition check_sim (c : sim_case) : bool :=
-  let '(start, stop_, st, driver, cs, (ocalls, oinits, oclock, osteps, ocode)) := c in
+  let '(start, stop_, st, driver, ends, tbl, cs, (ocalls, oinits, oclock, osteps, ocode)) := c in
   let s0 := mk_sim start stop_ st cs in
   (* fuel: one more than the number of steps the implementation made is enough for agreement and small enough to run *)
-  match model_run driver (S (Z.to_nat osteps)) s0 with
+  match model_run driver (S (Z.to_nat osteps)) (table_nxt tbl) ends s0 with
   | Ok s =>
       (ocode =? 0)
       && Nat.eqb (length ocalls) (length (calls s))
